@@ -1,6 +1,9 @@
 // Driver TU: memory_pool / fixed_pool / memory_pool_allocator (preview feature).
 #define TBB_PREVIEW_MEMORY_POOL 1
 #include "oneapi/tbb/memory_pool.h"
+#include "oneapi/tbb/scalable_allocator.h"
+#include "oneapi/tbb/cache_aligned_allocator.h"
+#include "oneapi/tbb/tbb_allocator.h"
 #include <memory>
 #include <vector>
 namespace drv {
@@ -20,5 +23,9 @@ void pools() {
     v.push_back(1);
     int* q = al.allocate(3);
     al.deallocate(q, 3);
+    // the other C++ allocators of the library (same allocate(n) contract: n * sizeof(T) bytes or std::bad_alloc)
+    tbb::scalable_allocator<long> sa; long* s1 = sa.allocate(2); sa.deallocate(s1, 2);
+    tbb::cache_aligned_allocator<long> ca; long* c1 = ca.allocate(2); ca.deallocate(c1, 2);
+    tbb::tbb_allocator<long> ta; long* t1 = ta.allocate(2); ta.deallocate(t1, 2);
 }
 } // namespace drv
